@@ -272,6 +272,27 @@ CLAIMED["C03"] = (
     "correspondence + validated API histories",
     "DESIGN.md §5 C03",
 )
+CLAIMED["C09"] = (
+    "Kernel-checked theorems on the attribute-store model of xmlchemy's OptionalAttribute: the reader after an assignment "
+    "gives the assigned value, after None (or the declared default) the default, and the attribute is gone; assigning one "
+    "attribute never changes the reading of another; after ANY history of assignments (any order, any repetition) each "
+    "reader gives the last value assigned to it, the initial reading if it was never assigned.  Storage quanta of the "
+    "non-identity conversions, on exact rationals: font size (floor to 1/100 pt, < 127 EMU, idempotent on re-store), "
+    "rotation and gradient angle (within half of 1/60000 degree modulo whole turns, incl. the 360 - v reflection and the "
+    "0 special case), crop / stop position / line spacing (half of 1/100000), adjustments (truncation, < 1/100000, never "
+    "away from zero), brightness through lumMod / lumOff for tints, shades and zero.  Tied to the code by exact comparison "
+    "of the stored XML integers and of attribute-store histories (a:rPr, a:bodyPr, a:tcPr) with the model, and by oracles "
+    "on the real objects for the whole property table (~110 properties x every object of a generated deck and of corpus "
+    "decks): getter after setter within the quantum, every sibling getter before / after, rejection with TypeError / "
+    "ValueError and an unchanged reading for out-of-domain values, None -> documented default, same readings after save + "
+    "re-open.",
+    "Property table and domains are written by hand from the docstrings (trusted input); couplings documented by the "
+    "library are excepted from independence; floats are dyadic rationals in the exact comparison.  Seven enum-alias "
+    "findings (shared with C20) are listed.",
+    "Lean 4 proof (store algebra by induction over histories; quantum bounds by integer arithmetic) + stored-integer and "
+    "store-history correspondence + read-back / independence / re-open oracles",
+    "DESIGN.md §5 C09",
+)
 
 NOT_YET = {}
 
